@@ -368,12 +368,12 @@ def run_model(ctx, inst, combine, invariants, emit, label, timeout=1500):
 
 
 def cases_of(r):
-    """printed terminal states -> {key: (req, cb, out, pruned)}"""
+    """printed terminal states -> {key: (req, cb, out, pruned, property holds on out)}"""
     table = {}
     for pr in tlc.find_prints(r.out, 'case'):
-        _, req, cb, out, pruned = pr
+        _, req, cb, out, pruned, prop = pr
         req, cb = norm_req(req), norm_cb(cb)
-        table[case_key(req, cb)] = (req, cb, out, bool(pruned))
+        table[case_key(req, cb)] = (req, cb, out, bool(pruned), bool(prop))
     return table
 
 
@@ -386,7 +386,7 @@ def vacuity_guard(name, r, need):
 def table_guard(name, table):
     """the table must contain the situations the property speaks about (non-vacuity of the invariants)"""
     seen = set()
-    for req, cb, out, pruned in table.values():
+    for req, cb, out, pruned, prop in table.values():
         seen.add('status%d' % out['status'])
         f = req['f']
         for row in out['px']:
@@ -489,20 +489,15 @@ class Apps(object):
         self.apps = {}
 
 
-def prop_flag(out_row):
-    return out_row
-
-
-def replay_table(ctx, apps, inst, tables, variant_of_code, props, label):
-    """tables: {'found': table, 'repaired': table}; props: {'found': {key: bool}, ...}: does the model response
-    satisfy the property?  Every case is executed on the real application."""
+def replay_table(ctx, apps, inst, tables, variant_of_code, label):
+    """tables: {'found': table, 'repaired': table}.  Every case of the table of the variant the code implements is executed
+    on the real application."""
     world = inst.world
     app = apps.get(world)
     table = tables[variant_of_code if variant_of_code in tables else 'found']
-    prop = props[variant_of_code if variant_of_code in props else 'found']
     nbad = 0
     for n, key in enumerate(sorted(table)):
-        req, cb, out, pruned = table[key]
+        req, cb, out, pruned, prop_ok = table[key]
         variant = n % len(FORMS)
         obs = observe(world, app, req, cb, inst.geoms, variant)
         ctx.cov['replayed_behaviours'] += 1
@@ -517,7 +512,7 @@ def replay_table(ctx, apps, inst, tables, variant_of_code, props, label):
             ctx.violation({'kind': 'conformance', 'feature': req['f'], 'what': what, 'detail': re.sub(r' \(first at.*', '', detail)},
                           '%s: %s %s under callback %s: %s' % (inst.name, req['f'], describe(req), describe_cb(cb), '; '.join(d for _, d in bad)),
                           case)
-        elif not prop[key]:
+        elif not prop_ok:
             # the real application behaves like the model of the code as found, and that behaviour violates the property
             ctx.violation(dict(DEFECT_SIG, service=family(req['f'])),
                           '%s %s under callback %s: the response is the one Auth.tla (code as found) predicts and it violates '
@@ -628,7 +623,7 @@ def random_event(rng, world, geoms):
             req = mkreq(f, ls, box=box)
         else:
             expl = ls if rng.random() < 0.8 else [rng.choice(names)]
-            req = mkreq(f, ls, expl=expl, box=box, pos=(rng.randint(0, wpx), rng.randint(0, hpx)))
+            req = mkreq(f, ls, expl=expl, box=box, pos=(rng.randint(0, wpx - 1), rng.randint(0, hpx - 1)))
         focus = (x0, y0, x0 + wpx * rx, y0 + hpx * ry)
     elif f in ('wms.caps', 'tms.caps', 'wmts.caps'):
         req = mkreq(f)
@@ -639,7 +634,7 @@ def random_event(rng, world, geoms):
         res = W.GRID['res'][z]
         cols, rows = (gb[2] - gb[0]) // (res * ts[0]), tile_rows(z)
         col, row = rng.randint(0, cols - 1), rng.randint(0, rows - 1)
-        req = mkreq(f, lay=lay, tile=(z, col, row), pos=(rng.randint(0, ts[0]), rng.randint(0, ts[1])))
+        req = mkreq(f, lay=lay, tile=(z, col, row), pos=(rng.randint(0, ts[0] - 1), rng.randint(0, ts[1] - 1)))
         x0, y1 = gb[0] + col * res * ts[0], gb[3] - row * res * ts[1]
         focus = (x0, y1 - res * ts[1], x0 + res * ts[0], y1)
 
@@ -789,7 +784,7 @@ def run(ctx):
         seen_situations = set()
         npruned = 0
         for inst in insts:
-            tables, props = {}, {}
+            tables = {}
             # (M) the repaired model satisfies the property on the whole universe
             r = run_model(ctx, inst, True, BASE_INV + PROPERTY, 'repaired' in inst.variants, 'repaired')
             if not r.ok:
@@ -799,28 +794,26 @@ def run(ctx):
             vacuity_guard('Auth ' + inst.name, r, need)
             if 'repaired' in inst.variants:
                 tables['repaired'] = cases_of(r)
-                props['repaired'] = {k: True for k in tables['repaired']}
                 rf = run_model(ctx, inst, False, BASE_INV + ['DeniedStaysDark', 'ContentInside'], True, 'found')
                 if not rf.ok:
                     raise tlc.MachineryError('Auth.tla (%s, code as found): %r\n%s' % (inst.name, rf, rf.out[-1500:]))
                 ctx.add_tlc('Auth %s (code as found), terminal states' % inst.name, rf)
                 tables['found'] = cases_of(rf)
-                # the cases on which the two variants differ are those on which the model of the code as found violates the property
-                props['found'] = {k: same_out(v[2], tables['repaired'][k][2]) or not differs_in_property(v, tables['repaired'][k])
-                                  for k, v in tables['found'].items()}
             else:
                 rr = run_model(ctx, inst, False, BASE_INV + PROPERTY, True, 'found')
                 if not rr.ok:
                     raise tlc.MachineryError('Auth.tla (%s): %r\n%s' % (inst.name, rr, rr.out[-1500:]))
                 ctx.add_tlc('Auth %s, property checked, terminal states' % inst.name, rr)
                 tables['found'] = cases_of(rr)
-                props['found'] = {k: True for k in tables['found']}
             for t in tables.values():
                 if not t:
                     raise tlc.MachineryError('no cases printed by TLC for %s' % inst.name)
                 seen_situations |= table_guard(inst.name, t)
                 npruned += sum(1 for v in t.values() if v[3])
-            replay_table(ctx, apps, inst, tables, code_variant, props, 'spec->code')
+            for vname, t in tables.items():
+                if any(not v[4] for v in t.values()) != (vname == 'found' and 'repaired' in tables):
+                    raise tlc.MachineryError('%s/%s: unexpected property verdicts in the printed table' % (inst.name, vname))
+            replay_table(ctx, apps, inst, tables, code_variant, 'spec->code')
         for need in ('status200', 'status401', 'status403', 'wms:dark', 'wms:content', 'wms:band', 'tms:dark', 'tms:content', 'tms:band',
                      'wmts:dark', 'kml:band', 'wms:info', 'wms:noinfo', 'wmts:info', 'wmts:noinfo'):
             if need not in seen_situations:
@@ -865,16 +858,6 @@ def applies(action, f):
             'TileAuthorize': f in TILE_WITH_COVERAGE + ('tms.layer', 'kml.doc'),
             'TileRender': f in ('tms', 'kml', 'wmts.kvp', 'wmts.rest'), 'TileInfoGate': f in ('wmts.fi.kvp', 'wmts.fi.rest'),
             'TileDocument': f in ('tms.layer', 'kml.doc'), 'TileCapabilities': f in ('tms.caps', 'wmts.caps')}[action]
-
-
-def same_out(a, b):
-    return tla.jsonable(a) == tla.jsonable(b)
-
-
-def differs_in_property(found_row, repaired_row):
-    """the two variants of the model differ on this case; the repaired one satisfies the property (checked by TLC), the
-    as-found one serves more (content / info outside the request-wide area)"""
-    return True
 
 
 def replay(ctx, data):
